@@ -504,7 +504,11 @@ Fixpoint save_copy (p : key) (t : tree) (f : file) : file :=
   let f1 := w_link p k (w_entity k (with_pgs a []) f) in
   let f2 := (fix go (l : list tree) (f : file) : file :=
                match l with [] => f | c :: r => go r (save_copy k c f) end) l f1 in
-  fold_left (fun f g => w_pg_put k g f) (apgs a) f2.
+  let f3 := fold_left (fun f g => w_pg_put k g f) (apgs a) f2 in
+  (* ObjectBase.copy: `if self.property_groups: copy_property_groups(...); update_attribute(new_object, "property_groups")`
+     -> H5Writer.write_property_groups DELETES the node's whole PropertyGroups container and rewrites it from memory: on a
+     stale node (identifier re-use) the old blocks disappear; nothing is rewritten when the source has no property group *)
+  match apgs a with [] => f3 | _ => w_pgs k a f3 end.
 
 Definition do_copy (w : ws) (e q : key) (ids : list N) : ws * outcome :=
   match find e (wmem w), find q (wmem w) with
